@@ -21,7 +21,8 @@ From Kit Require Export C11.Model C11.Spec Lib.CheckLib.
 Inductive case :=
 | CScript (script : list op) (observed : obs) (order : list Z)
 | CConc (nstay : Z) (calls : list call) (stay : list (list Z))
-        (leaver : option (list Z)) (late : option (Z * list Z)) (order : list Z).
+        (leaver : option (list Z)) (late : option (Z * list Z)) (order : list Z)
+| CRush (nsub nb : Z) (late : list (list Z)).
 
 (* ---------------------------------------------------------------------------------------- *)
 (* run to quiescence, noting order-dependent choices *)
@@ -201,12 +202,25 @@ Definition conc_observed (stay : list (list Z)) (leaver : option (list Z))
        ++ (match late with Some (_, s) => [s] | None => [] end).
 
 (* ---------------------------------------------------------------------------------------- *)
+(* rushed runs: [nsub] subscribers whose consumers do not read, [nb] Broadcasts (at most the
+   buffer's worth, so nothing blocks), Close; only then the consumers start reading everything.
+   The model's answer (one schedule; C11_no_delivery_after_close covers every other one): what
+   each consumer received. *)
+Definition rush_model (vr : variant) (nsub nb : nat) : list (list Z) :=
+  let s0 := fold_left (fun s k => do_env vr s (SubCall (- Z.of_nat k - 2) false)) (seq 0 nsub) init in
+  let s1 := fold_left (fun s k => do_env vr s (BcCall (Z.of_nat k))) (seq 1 nb) s0 in
+  let s2 := do_env vr s1 CloseCall in
+  let s3 := fold_left (fun s i => do_env vr s (WantAll i)) (seq 0 nsub) s2 in
+  map received (subs s3).
+
+(* ---------------------------------------------------------------------------------------- *)
 
 Definition oracle (c : case) : bool :=
   match c with
   | CScript sc ob w => Spec.oracle sc ob w
   | CConc n calls stay leaver late w =>
       (Z.of_nat (length stay) =? n)%Z && (1 <=? n)%Z && conc_oracle calls stay leaver late w
+  | CRush nsub _ late => (Z.of_nat (length late) =? nsub)%Z && rush_oracle late
   end.
 
 Definition model_agrees (c : case) : bool :=
@@ -218,6 +232,7 @@ Definition model_agrees (c : case) : bool :=
       else obs_eqb (d_obs d) ob
   | CConc n calls stay leaver late w =>
       eqb_llz (conc_model Fixed (Z.to_nat n) w leaver late) (conc_observed stay leaver late)
+  | CRush nsub nb late => eqb_llz (rush_model Fixed (Z.to_nat nsub) (Z.to_nat nb)) late
   end.
 
 (* 0 = agree and the oracle holds; 1 = model and implementation differ (or the script is outside
